@@ -57,7 +57,7 @@ def run(c):
         dict(name="gen_firsthop", cfg=cfg, depth=4, exp_choices=(9,), report_set=(3,), horizon=6, max_adv=2),
     ]
     for g in gens:
-        st = pc.gen_replay(c, "C07", binp, u="B", policy="none", **g)
+        st = pc.gen_replay(c, "C07", binp, u="B", **g)
         nrep += st["replayed"]
         steps += st["steps"]
         nontriv |= {g["name"] + ":" + k for k in st["nontrivial"]}
@@ -84,7 +84,7 @@ def run(c):
             dict(name="rec_B_lag", cfg=dict(rcfg, chan_cap=1), runs=n, steps=200 if thorough else 100, salt=73, burst=5,
                  issues=(1, 2, 4, 5), exp_choices=(8, 20, 40))]
     for r in recs:
-        st = pc.record_validate(c, "C07", binp, u="B", policy="none", **r)
+        st = pc.record_validate(c, "C07", binp, u="B", **r)
         traces += st["accepted_runs"]
         c.cov["evaluations"] += st["events"]
         c.cov["distinct_nontrivial"] += st["nontrivial"]
